@@ -58,6 +58,7 @@ struct Case
     long long limit = 0;
     std::string posname;
     int prior = 0; // bytes already in the second target stream
+    int moved = 0; // 0: as declared, 1: parser move-constructed before usage(), 2: move-assigned
 
     template <class A>
     void io(A& a)
@@ -70,6 +71,7 @@ struct Case
         a("limit", limit);
         a("posname", posname);
         a("prior", prior);
+        a("moved", moved);
     }
 };
 
@@ -100,7 +102,8 @@ std::string describe(const Case& c)
             o << " default";
         o << " g" << e.group << " desc=" << vf::vis(e.desc, 50) << "; ";
     }
-    o << "] positionals=" << c.limit << " prior=" << c.prior;
+    o << "] positionals=" << c.limit << " prior=" << c.prior
+      << (c.moved == 1 ? " parser-move-constructed" : c.moved == 2 ? " parser-move-assigned" : "");
     return o.str();
 }
 
@@ -121,7 +124,9 @@ Case generate(vf::Src& src, const std::string&)
     for (int i = 0; i < ng; ++i)
     {
         UGroup g;
-        g.name = "grp" + std::to_string(i) + gen_word(src, 0, 10);
+        // names whose alphabetical order differs from the creation order (the index only
+        // keeps them unique)
+        g.name = gen_word(src, 1, 8) + "-" + std::to_string(i);
         g.desc = src.coin(50) ? "" : "description of group " + std::to_string(i);
         c.groups.push_back(g);
     }
@@ -178,6 +183,7 @@ Case generate(vf::Src& src, const std::string&)
     c.limit = lims[src.index(4)];
     c.posname = src.coin(60) ? "args" : src.str("ABCDEFGHIJKLMNOP", 1, 8);
     c.prior = src.coin(50) ? src.irange(1, 200) : 0;
+    c.moved = static_cast<int>(src.weighted({ 70, 15, 15 }));
     return c;
 }
 
@@ -265,6 +271,16 @@ static std::unique_ptr<nitro::options::parser> build(const Case& c)
     else if (c.limit > 0)
         p->accept_positionals(static_cast<std::size_t>(c.limit));
     p->positional_metavar(c.posname);
+    // the usage text belongs to the declaration, not to the object it was made on
+    if (c.moved == 1)
+        p = std::make_unique<parser>(std::move(*p));
+    else if (c.moved == 2)
+    {
+        auto other = std::make_unique<parser>("other-app", "other about");
+        other->group("zzz-own", "d").toggle("own-toggle", "d");
+        *other = std::move(*p);
+        p = std::move(other);
+    }
     return p;
 }
 
@@ -290,6 +306,8 @@ std::string check(const Case& c, vf::Ctx& ctx)
 
     if (c.prior)
         ctx.tag("target:prior-content");
+    if (c.moved)
+        ctx.tag("parser:moved-before-usage");
     std::size_t ngroups_used = 0;
     {
         std::set<int> gs;
